@@ -216,7 +216,12 @@ def key_block(o, resolve):
 def key_info(tag, ki, resolve):
     if ki is None:
         return None
-    return S(tag, T(TAG['UNIQUE_IDENTIFIER'], resolve(ki['uid'])),
+    uid = resolve(ki['uid'])
+    if ki.get('pad8') and isinstance(uid, str) and uid.isdigit():
+        # the same object under a spelling of 8 characters (a text string
+        # that fills its 8-byte block exactly and is echoed in the answer)
+        uid = uid.zfill(8)
+    return S(tag, T(TAG['UNIQUE_IDENTIFIER'], uid),
              cp_node(ki.get('cp')))
 
 
